@@ -82,7 +82,23 @@ class Catalogue(object):
                     ('berlin_jul', B.localize(DT(2021, 7, 15, 12, 0, 0))),
                     ('cairo_jan', pytz.timezone('Africa/Cairo').localize(DT(2021, 1, 15, 12, 0, 0))),
                     ('adak_jul', pytz.timezone('America/Adak').localize(DT(2021, 7, 15, 12, 0, 0))),
-                    ('anchorage_jan', pytz.timezone('America/Anchorage').localize(DT(2021, 1, 15, 12, 0, 0)))]
+                    ('anchorage_jan', pytz.timezone('America/Anchorage').localize(DT(2021, 1, 15, 12, 0, 0))),
+                    # zero offset outside UTC
+                    ('london_winter', pytz.timezone('Europe/London').localize(DT(2021, 1, 15, 12, 0, 0))),
+                    ('reykjavik', pytz.timezone('Atlantic/Reykjavik').localize(DT(2021, 7, 15, 12, 0, 0))),
+                    ('abidjan', pytz.timezone('Africa/Abidjan').localize(DT(2021, 7, 15, 12, 0, 0))),
+                    # zones whose first recorded offset is the -00 placeholder
+                    ('troll', pytz.timezone('Antarctica/Troll').localize(DT(2021, 7, 15, 12, 0, 0))),
+                    ('iqaluit', pytz.timezone('America/Iqaluit').localize(DT(2021, 1, 15, 12, 0, 0))),
+                    # one instant in three zones
+                    ('same_berlin', B.localize(DT(2019, 3, 5, 9, 30, 0))),
+                    ('same_sydney', pytz.timezone('Australia/Sydney').localize(DT(2019, 3, 5, 19, 30, 0))),
+                    ('same_utc', pytz.utc.localize(DT(2019, 3, 5, 8, 30, 0))),
+                    # foreign fixed-offset tzinfo (no zone name): the writer has to find a zone for each instant
+                    ('fixed_m8_jan', DT(2020, 1, 15, 12, 30, 0, tzinfo=datetime.timezone(datetime.timedelta(hours=-8)))),
+                    ('fixed_m8_jul', DT(2020, 7, 15, 12, 30, 0, tzinfo=datetime.timezone(datetime.timedelta(hours=-8)))),
+                    ('fixed_p1030_jan', DT(2020, 1, 15, 12, 0, 0, tzinfo=datetime.timezone(datetime.timedelta(hours=10, minutes=30)))),
+                    ('fixed_p1030_jul', DT(2020, 7, 15, 12, 0, 0, tzinfo=datetime.timezone(datetime.timedelta(hours=10, minutes=30))))]
         if kind == 'coord':
             C = hs.Coordinate
             return [('zero', C(0, 0)), ('max', C(90, 180)), ('min', C(-90, -180)), ('richmond', C(37.545, -77.449)),
@@ -97,7 +113,9 @@ class Catalogue(object):
                 ('blankline', 'a\n\nb'), ('latin1', u'café'), ('ls', u'a b'), ('bmp', u'中文'),
                 ('astral', u'\U0001F600'), ('N', 'N'), ('marker_like', 'm:'), ('ver', 'ver:"2.0"'),
                 ('trailing_bs', 'end\\'), ('quote_only', '"'), ('esc_like', '\\n\\u0041'), ('brackets', '[1,2]{a}'),
-                ('spaces', '  lead and trail  '), ('uprefix', 'u:x'), ('highbmp', u'￮￿')]
+                ('spaces', '  lead and trail  '), ('uprefix', 'u:x'), ('highbmp', u'￮￿'),
+                ('boundaries', u'\x7e\x7f\x80\x81\xff\u0100\ud7ff\ue000\uffff\U00010000\U0010ffff'),
+                ('esc_lookalike', 'C:\\temp\\u00e9t \\u0041 \\U0041 \\\\u0022')]
 
     # ---- composite values
     def value(self, kind, ver, label=None, depth=0):
@@ -208,3 +226,27 @@ class Catalogue(object):
                 row[names[0]] = 0          # an empty line in a one-column grid is a grid separator
             g.append(row)
         return g
+
+
+    def empty_grid(self, ver):
+        """a header-only grid (no rows): falsy in Python, because len() counts rows"""
+        return self.hs.Grid(version=ver, metadata={'dis': 'empty'}, columns=[('a', []), ('b', [('unit', 'kW')])])
+
+
+    def zone_sweep(self, tier):
+        """one grid per batch of mapped zones: a winter and a summer date-time in every zone hszinc maps
+        (names taken from the implementation's map, whose correctness is C17's subject)"""
+        import hszinc.zoneinfo as zi
+        names = sorted(zi.get_tz_map().keys())
+        if tier == 'quick':
+            names = [n for i, n in enumerate(names) if i % 4 == self.rng.randrange(4) or n in (
+                'Troll', 'Rothera', 'Iqaluit', 'Casey', 'London', 'Lord_Howe', 'Adak', 'UTC', 'GMT', 'Reykjavik', 'Kolkata')]
+        out = []
+        for i in range(0, len(names), 60):
+            g = self.hs.Grid(version='3.0' if (i // 60) % 2 else '2.0', columns=[('zone', []), ('winter', []), ('summer', [])])
+            for n in names[i:i + 60]:
+                tz = zi.timezone(n)
+                g.append({'zone': n, 'winter': tz.localize(datetime.datetime(2021, 1, 15, 12, 0, 0)),
+                          'summer': tz.localize(datetime.datetime(2021, 7, 15, 12, 0, 0, 250000))})
+            out.append(g)
+        return out
